@@ -969,7 +969,16 @@ func runAccum(cs *Case, samples []string, st *stats) *fail {
 	}
 	agg := aggregation.NewAccumulatingGroup(funclib.NewKeyBuilder())
 	for i, g := range cs.Acc.Groups {
-		if err := agg.AddGroupExpr("g"+strconv.Itoa(i), "{"+strconv.Itoa(g)+"}"); err != nil {
+		gexpr := "{" + strconv.Itoa(g) + "}"
+		switch {
+		case g == -1 && len(cs.Acc.Cols) > 0:
+			gexpr = "{" + cs.Acc.Cols[0].Name + "}"
+		case g == -3:
+			gexpr = "{.}"
+		case g < 0:
+			gexpr = "{nosuchkey}"
+		}
+		if err := agg.AddGroupExpr("g"+strconv.Itoa(i), gexpr); err != nil {
 			return &fail{class: "setup", msg: "AddGroupExpr: " + err.Error()}
 		}
 	}
